@@ -277,7 +277,8 @@ def _render_task(spec, t, ind: str, kid: bool) -> list[str]:
         L.append(f"{ind}@pytask.mark.persist")
     deco = []
     if kid:
-        deco.append(f"name={tname(t['id'])!r}")
+        # `alias`: the defined task takes the name of an existing task (6571c4f: the generator must fail)
+        deco.append(f"name={tname(t['alias'] if t.get('alias') is not None else t['id'])!r}")
     if t.get("gen"):
         deco.append("is_generator=True")
     if after_idents(t):
@@ -416,7 +417,7 @@ def model_lines(spec):
     lines = ["prov.reset"]
     for t in spec["tasks"]:
         lines.append(
-            f"prov.task id={t['id']} src={SRC_NODE} cnt={'none' if t.get('cnt') is None else t['cnt']} "
+            f"prov.task id={t['alias'] if t.get('alias') is not None else t['id']} src={SRC_NODE} cnt={'none' if t.get('cnt') is None else t['cnt']} "
             f"deps={','.join(map(str, t['deps']))} pdeps={_slots(spec, t['pdeps'])} prods={','.join(map(str, t['prods']))} "
             f"pprods={_slots(spec, t['pprods'])} after={','.join(map(str, after_ids(spec, t)))} gen={1 if t.get('gen') else 0} fails={1 if t.get('fails') and t.get('fails') != 'late' else 0} late={1 if t.get('fails') == 'late' and not t.get('gen') else 0} "
             f"parent={'none' if t.get('parent') is None else t['parent']} unc={1 if t.get('uncollectable') else 0}")
@@ -725,6 +726,8 @@ def gen_spec(rng, *, overlap_p=0.08, fail_p=0.06):
                          "dstyle": "default"}
                 if rng.random() < 0.1:
                     k["uncollectable"] = True     # collection of this defined task fails: the generator itself must FAIL (f1fcb9a)
+                elif rng.random() < 0.08:
+                    k["alias"] = rng.choice([t["id"] for t in tasks if t.get("parent") is None])   # name of an existing task (6571c4f)
                 tasks.append(k)
     # a custom `name=` on the DirectoryNodes of some tasks (a label only: producer and consumer still share one node)
     for t in tasks:
